@@ -150,8 +150,35 @@ def zero_param_recursion():
         yield (('assign', 'n', N(0)), ('define', 'f', (), body), wrapper, ('callst', 'h', (N(77),), False), ('print', V('n')))
 
 
+def macro_clashes():
+    """A macro with the name of a routine's parameter or local variable, defined before or after the routine
+    (but always before the call): inside the routine the name means the parameter / local."""
+    N = lambda v: ('num', v)
+    V = lambda n: ('var', n)
+    mac = ('defmacro', 'k', N(99))
+    bodies = [
+        (('k',), (('assign', 'k', ('bin', '+', V('k'), N(1))), ('print', V('k')), ('return', V('k')))),
+        (('k',), (('print', V('k')), ('return', ('bin', '*', V('k'), N(2))))),
+        (('k', 'j'), (('if', ((('bin', '>', V('k'), N(0)), (('return', ('bin', '+', V('k'),
+                                                                       ('call', 'f', (('bin', '-', V('k'), N(1)), V('j'))))),)),), None),
+                      ('return', V('j')))),
+    ]
+    for params, body in bodies:
+        args = (N(3),) if len(params) == 1 else (N(3), N(10))
+        d = ('define', 'f', params, body)
+        use = (('print', ('call', 'f', args)), ('print', ('mac', 'k')), ('callst', 'f', args, False), ('print', ('mac', 'k')))
+        yield (mac, d) + use                      # macro first
+        yield (d, mac) + use                      # macro after the routine, before the call
+    # a local variable of the routine
+    d = ('define', 'g', (), (('assign', 'loc', N(1)), ('assign', 'loc', ('bin', '+', V('loc'), N(1))), ('print', V('loc')),
+                             ('return', V('loc'))))
+    yield (d, ('defmacro', 'other', N(50)), ('print', ('call', 'g', ())), ('print', ('mac', 'other')))
+
+
 def programs(max_cost):
     from .static import reads_ok
+    for p in macro_clashes():
+        yield p
     for gen in (recursion(), zero_param_recursion(), two_routines(), single_routine(max_cost)):
         for p in gen:
             if reads_ok(p):          # the compile-time name rule, see lang/static.py
